@@ -103,7 +103,7 @@ func (f *globalMaxInflight) SetState(instance string, requestId int64, current i
 	delta := current - old
 	overflowed := f.add(delta)
 
-	if overflowed > 0 {
+	if overflowed > 0 && delta > 0 {
 		atomic.AddInt32(&state.count, -delta)
 		f.add(-delta)
 		return false, old, nil
